@@ -246,7 +246,20 @@ type c20World struct {
 	trim    []bool
 }
 
-func c20NewWorld(nsets int, delay func()) *c20World {
+// c20EmptyLoader: a first loader that holds nothing and spells names its own way (relative, like the FSLoader and the
+// HTTP loader do, where the loader behind it makes them absolute): the set's templates all come from the second loader.
+type c20EmptyLoader struct{ inner *c20Loader }
+
+func (l *c20EmptyLoader) Abs(base, name string) string {
+	return strings.TrimPrefix(l.inner.Abs(base, name), "/")
+}
+func (l *c20EmptyLoader) Get(p string) (io.Reader, error) {
+	return nil, fmt.Errorf("c20EmptyLoader: no template %s", p)
+}
+
+// variant (sets beyond the first): bit 0 = the set's templates come from its SECOND loader, bit 1 = the set has no
+// globals of its own (while the package-level pongo2.Globals, i.e. the default set's, do define g)
+func c20NewWorld(nsets int, delay func(), variant int) *c20World {
 	w := &c20World{store: &c20Store{version: map[string]int{}, broken: map[string]bool{}, failing: map[string]bool{}}, rec: &c20Recorder{ids: map[*pongo2.Template]int{}}}
 	for _, n := range []string{"/a", "/b", "/c"} {
 		w.store.version[n] = 1
@@ -255,7 +268,14 @@ func c20NewWorld(nsets int, delay func()) *c20World {
 		l := &c20Loader{store: w.store, set: i, okGets: map[string]int{}, delay: delay}
 		s := pongo2.NewSet(fmt.Sprintf("set%d", i), l)
 		g := fmt.Sprintf("G%d", i)
-		s.Globals["g"] = g
+		if i > 0 && variant&1 != 0 {
+			s = pongo2.NewSet(fmt.Sprintf("set%d", i), &c20EmptyLoader{inner: l}, l)
+		}
+		if i > 0 && variant&2 != 0 {
+			g = ""
+		} else {
+			s.Globals["g"] = g
+		}
 		s.Options.TrimBlocks = i == 0
 		w.sets = append(w.sets, s)
 		w.loaders = append(w.loaders, l)
@@ -627,7 +647,23 @@ func c20Run(c *C) {
 			}
 		}
 	}
-	w := c20NewWorld(nsets, delay)
+	variant := r.Intn(4)
+	if variant&1 != 0 {
+		// the relative spelling of the first loader maps "//a" and "/a" to one name for the second loader: not an alias
+		// with a fetch count of its own there
+		for i, n := range names {
+			if n == "//a" {
+				names[i] = "/./a"
+			}
+		}
+	}
+	if pongo2.Globals["g"] == nil {
+		pongo2.Globals["g"] = "GLOBAL-OF-THE-DEFAULT-SET" // the default set is one more set: its globals are its own
+	}
+	w := c20NewWorld(nsets, delay, variant)
+	if nsets > 1 {
+		c.Cover(fmt.Sprintf("second_set_variant_two_loaders_%v_no_globals_%v", variant&1 != 0, variant&2 != 0))
+	}
 	var isoMu sync.Mutex
 	iso := ""
 	noteIso := func(s string) {
